@@ -371,6 +371,9 @@ pub fn run(ctx: &Ctx) -> (Stats, Spec) {
             check_text(&mut st, &format!("[] {} {}", cs, c));
         }
     }
+    let wk_iters = ctx.tier.pick(3_000u64, 60_000u64);
+    let parts = util::par_jobs(16, |job| super::weak::weak_hash_job(ctx, "C05", job, wk_iters));
+    st.merge(crate::report::merge_all(parts));
     let spec = Spec {
         rule: "API: operand lists (exhaustive over all 2-variable functions up to length 3; random with repeats and complementary pairs up to length 5 [quick] / 7 [thorough]) x bounds n in [-3, len+3] plus {i64::MIN+len, i64::MIN+len+1, -2^40, 2^40, i64::MAX-len-1, i64::MAX-len} x {aln, amn, exn}; list-vs-list for all five comparisons. Language: `[..] cmp n` and `[..] cmp [..]` with trailing commas, constants {0,1,len-1,len,len+1,2,2^31,2^63-1} exact and {2^63, 2^64-1} 'rejected or exact'. distinct = (kind, operand tables, bound); non-trivial = >= 2 non-constant operands.".into(),
         assumptions: vec![
@@ -378,6 +381,7 @@ pub fn run(ctx: &Ctx) -> (Stats, Spec) {
             "for constants >= 2^63 the implementation may reject with an error or must read exactly that number".into(),
         ],
         floors: vec![
+            ("weak_hash_symbol_calls".into(), 2_000, "environment over a constant-hash symbol type never exercised".into()),
             ("aln".into(), 5_000, "aln never exercised".into()),
             ("count_lt".into(), 5_000, "count_lt never exercised".into()),
             ("negative_bounds".into(), 1_000, "no negative bounds".into()),
@@ -390,6 +394,13 @@ pub fn run(ctx: &Ctx) -> (Stats, Spec) {
 }
 
 pub fn replay(_ctx: &Ctx, _monitor: &str, case: &Value, st: &mut Stats) {
+    if case.get("kind").and_then(|k| k.as_str()) == Some("weak-hash") {
+        let job = case.get("job").and_then(|j| j.as_u64()).unwrap_or(0) as usize;
+        let mut c2 = _ctx.clone();
+        c2.seed = case.get("seed").and_then(|j| j.as_u64()).unwrap_or(c2.seed);
+        st.merge(super::weak::weak_hash_job(&c2, "C05", job, 20_000));
+        return;
+    }
     let kind = case.get("kind").and_then(|k| k.as_str()).unwrap_or("");
     if kind == "language" {
         check_text(st, case.get("text").and_then(|t| t.as_str()).unwrap_or(""));
